@@ -155,7 +155,7 @@ def writes_cell_reachable(ctx, roots):
     return ctx.cg.path_to(roots, lambda k: k in writers)
 
 
-def import_obligations(ctx, src_prop, rule_as, only_rules=None, prefix=None, floor=1):
+def import_obligations(ctx, src_prop, rule_as, only_rules=None, prefix=None, floor=1, only_instances=None):
     """Run another property's rule module on the same facts and record (a subset of) its obligations under `rule_as` of the
     current report (cross-import: the other property's clause is a necessary condition of this one)."""
     import importlib
@@ -170,6 +170,8 @@ def import_obligations(ctx, src_prop, rule_as, only_rules=None, prefix=None, flo
     pre = prefix or (src_prop + ':')
     for o in sub.rep.obligations:
         if only_rules is not None and o['rule'] not in only_rules:
+            continue
+        if only_instances is not None and not only_instances(o['instance']):
             continue
         n += 1
         if o['ok']:
